@@ -16,5 +16,5 @@ sys.exit(1 if missing else 0)
 PY
 rc=$?
 rm -f /tmp/baseline.$$.*
-cd /repo && git status --short | grep -v '^??' ; rm -f /repo/*.vcd.tmp
+cd /repo && git status --short | grep -v '^??' ; rm -f /repo/*.vcd
 exit $rc
